@@ -5,10 +5,14 @@
 cd "$(dirname "$0")/.."
 WT=/tmp/seedverify-$$
 git -C /repo worktree add --detach $WT HEAD >/dev/null 2>&1
-: > seeded/RESULTS.tsv
+# optional argument: a grep -E pattern on the seed names; only those rows are refreshed
+PAT=${1:-.}
+touch seeded/RESULTS.tsv
 for d in seeded/*/; do
   d=$(realpath $d); name=$(basename $d); id=${name%%-*}
   [ -f $d/patch.diff ] || continue
+  echo "$name" | grep -Eq "$PAT" || continue
+  grep -v "^$name	" seeded/RESULTS.tsv > seeded/RESULTS.tsv.tmp; mv seeded/RESULTS.tsv.tmp seeded/RESULTS.tsv
   git -C $WT checkout -q -- . ; git -C $WT clean -fdq
   PYTHONPATH=$WT timeout 900 /venv/bin/python $d/demo.py >/dev/null 2>&1; c0=$?
   if ! git -C $WT apply $d/patch.diff 2>/dev/null; then echo -e "$name\tPATCH-DOES-NOT-APPLY" | tee -a seeded/RESULTS.tsv; continue; fi
@@ -20,4 +24,5 @@ for d in seeded/*/; do
   first=$(echo "$out" | grep -A1 "^VIOLATION" | sed -n 2p | cut -c1-140)
   echo -e "$name\tdemo_clean=$c0\tdemo_seeded=$c1\tbaseline_regressed=$base\tcheck_exit=$rc\t$first" | tee -a seeded/RESULTS.tsv
 done
+sort -o seeded/RESULTS.tsv seeded/RESULTS.tsv
 git -C /repo worktree remove --force $WT
